@@ -336,7 +336,7 @@ def load_known(prop):
     return known, fixed
 
 
-def shrink(prop_cfg, session, want, known_flags, budget=60, target_op=None):
+def shrink(prop_cfg, session, want, known_flags, budget=60, target_op=None, target_impl=None):
     """ddmin over the op lines of one session; `want` is the verdict class to preserve, on the
     same operation (first two words) as the line that failed originally"""
     def opkey(op):
@@ -346,7 +346,9 @@ def shrink(prop_cfg, session, want, known_flags, budget=60, target_op=None):
             res = execute(prop_cfg, cand, tag="shrink")
         except Exception:
             return False
+        # a harness panic caused by the removal of a needed op (nil client ...) is not the same failure
         return any(classify(r, known_flags).split(":")[0] == want and (target_op is None or opkey(r["op"]) == opkey(target_op))
+                   and (r["I"] != "panic" or target_impl == "panic")
                    for r in res)
     head = []
     cur = list(session)
